@@ -172,11 +172,21 @@ type Error struct {
 	ErrorType int
 }
 
+// replyText builds the reply-text of a close method. It travels as a short
+// string, so it is cut to the 255 bytes a short string can hold.
+func replyText(code uint16, text string) string {
+	text = ConstantsNameMap[code] + " - " + text
+	if len(text) > 255 {
+		text = text[:255]
+	}
+	return text
+}
+
 // NewConnectionError returns new connection error. If caused - connection should be closed
 func NewConnectionError(code uint16, text string, classID uint16, methodID uint16) *Error {
 	err := &Error{
 		ReplyCode: code,
-		ReplyText: ConstantsNameMap[code] + " - " + text,
+		ReplyText: replyText(code, text),
 		ClassID:   classID,
 		MethodID:  methodID,
 		ErrorType: ErrorOnConnection,
@@ -189,7 +199,7 @@ func NewConnectionError(code uint16, text string, classID uint16, methodID uint1
 func NewChannelError(code uint16, text string, classID uint16, methodID uint16) *Error {
 	err := &Error{
 		ReplyCode: code,
-		ReplyText: ConstantsNameMap[code] + " - " + text,
+		ReplyText: replyText(code, text),
 		ClassID:   classID,
 		MethodID:  methodID,
 		ErrorType: ErrorOnChannel,
